@@ -51,6 +51,25 @@ def _same(a, b):
     return bool(r)
 
 
+def _syn(x):
+    ''' Syntactic fingerprint of a buffer (terms as text, opaque pieces by source and bounds). '''
+    out = []
+    for piece in SBuf.of(x):
+        if hasattr(piece, 'items'):
+            out.append(tuple(str(getattr(it, 'e', it)) for it in piece.items))
+        else:
+            out.append((id(piece.src), str(getattr(piece.start, 'e', piece.start)), str(getattr(piece.length, 'e', piece.length))))
+    return tuple(out)
+
+
+def _must_same(a, b):
+    ''' Syntactically the same octets (sufficient, not necessary, for equality; never forks). '''
+    try:
+        return _syn(a) == _syn(b)
+    except Exception:
+        return False
+
+
 def install():
     if _INSTALLED:
         return
@@ -96,6 +115,10 @@ def install():
     # ---- MAC
     def compute_tag(cls, key, data):
         ents = _entries()
+        # a MAC is a function: the same key and (provably) the same octets give the same tag
+        for e in ents:
+            if e['kind'] == 'mac' and e['key'] == _keybytes(key) and _must_same(e['data'], data):
+                return e['token']
         tok = _token('M', len(ents), cls.get_digest_length())
         ents.append(dict(kind='mac', key=_keybytes(key), data=data, token=tok))
         return tok
@@ -112,8 +135,17 @@ def install():
     # ---- AEAD
     def encrypt(cls, key, nonce, data, aad):
         ents = _entries()
-        n = len(data) if isinstance(data, (bytes, bytearray)) else int(Ctx.cur.concretize(blen(data).e, why='plaintext length')) if hasattr(blen(data), 'e') else int(blen(data))
-        tok = _token('C', len(ents), n + 16)
+        # encryption is a function of key, nonce, AAD and plaintext
+        for e in ents:
+            if (e['kind'] == 'enc' and e['key'] == _keybytes(key) and e['nonce'] == bytes(nonce)
+                    and _must_same(e['aad'], aad) and _must_same(e['data'], data)):
+                return e['token']
+        n = blen(data)
+        if hasattr(n, 'e'):
+            # plaintext of symbolic length: the ciphertext is a fresh opaque blob of length n + 16
+            tok = Ctx.cur.sym_blob('ciphertext%d' % len(ents), n + 16)
+        else:
+            tok = _token('C', len(ents), int(n) + 16)
         ents.append(dict(kind='enc', key=_keybytes(key), nonce=bytes(nonce), aad=aad, data=data, token=tok))
         return tok
 
